@@ -104,11 +104,13 @@ class Env(object):
             b.pop(name, None)
 
     def fresh(self, prefix):
-        # per-prefix numbering: different bodies reuse the same names (i1, i2, s1 ...), which is what makes a
-        # callee that leaks into its caller's scope visible
-        k = 'n_' + prefix
-        self.counter[k] = self.counter.get(k, 0) + 1
-        return '%s%d' % (prefix, self.counter[k])
+        # smallest index not visible in any enclosing block: different bodies reuse the same names (i1, i2, s1 ...),
+        # which makes a callee leaking into its caller's scope visible, and a name whose block has ended is declared
+        # AGAIN by a later statement - a new variable owned by the later block
+        k = 1
+        while self.get('%s%d' % (prefix, k)) is not None:
+            k += 1
+        return '%s%d' % (prefix, k)
 
 
 class Gen(object):
@@ -247,6 +249,10 @@ class Gen(object):
             if hs:
                 return N('UnaryOperationNode', operator=t.choice(['empty', 'not_empty']), operand=self.var(t.choice(hs)))
         if k == 5:
+            hs = env.vars(lambda i: i['ty'] in ('inst', 'set'))
+            if hs and t.flag():
+                return N('UnaryOperationNode', operator='not', operand=N(
+                    'UnaryOperationNode', operator=t.choice(['empty', 'not_empty']), operand=self.var(t.choice(hs))))
             return N('UnaryOperationNode', operator='not', operand=sub('bool'))
         if k == 6:
             return B(sub('bool'), t.choice(['and', 'or']), sub('bool'))
